@@ -392,6 +392,10 @@ type opRec struct {
 	qtB, qtA uint64
 	evalRan  bool
 	fromH    bool
+	// queued mutations and the running transition when an args-less mutation
+	// was issued (that is when duplicate suppression applies)
+	queueB []*am.Mutation
+	busyB  bool
 }
 
 type mw struct {
@@ -715,6 +719,10 @@ func (w *mw) exec(task string, op mwOp, fromHandler bool) *opRec {
 		r.before = m.Time(nil)
 		r.activeB = m.ActiveStates(nil)
 		r.qtB = m.QueueTick()
+	}
+	if op.id == "" && (op.kind == opAdd || op.kind == opRemove || op.kind == opSet) {
+		r.queueB = m.Queue()
+		r.busyB = w.cur != nil
 	}
 	func() {
 		defer func() {
